@@ -1,6 +1,6 @@
 (* C19 — unsupported requests are refused cleanly; the automatic plan works wherever map-reduce does. *)
 From Coq Require Import ZArith String List Bool.
-From Flox Require Import C19Proofs.
+From Flox Require Import Tables C19Proofs ChooseLaw.
 Import ListNotations.
 
 (* The outcome table is produced on every run by evaluating the real entry point on the finite
@@ -15,4 +15,39 @@ Theorem C19_checker_sound :
       explicit_ok r = true.                        (* explicit cohorts / blockwise: same answer or a clean refusal *)
 Proof. exact C19Proofs.checker_sound. Qed.
 
+(* The decision function _choose_method, tabulated from the RUNNING code on every point of its abstracted
+   domain (T2, regenerated on every run; [C19_choose_table_covers_domain] states the coverage): *)
+Theorem C19_choose_table_covers_domain : covers_domain choose_method_rows = true.
+Proof. exact choose_rows_cover. Qed.
+
+(* an explicitly requested method is never replaced *)
+Theorem C19_explicit_method_kept :
+  forall name ia bo m pref ne out,
+    In (name, ia, bo, Some m, pref, ne, out) choose_method_rows -> out = CRet m.
+Proof. exact explicit_method_kept. Qed.
+
+(* method=None never picks a method that groupby_reduce would refuse: reducing over a subset of the
+   label axes always goes to map-reduce ... *)
+Theorem C19_auto_partial_axes_is_map_reduce :
+  forall name ia pref out,
+    In (name, ia, false, None, pref, false, out) choose_method_rows -> out = CRet MMapReduce.
+Proof. exact auto_partial_axes_is_map_reduce. Qed.
+
+(* ... and an arg reduction is never sent to 'blockwise' (and always gets some method) *)
+Theorem C19_auto_arg_reduction_never_blockwise :
+  forall name pref ne out,
+    In (name, true, false, None, pref, ne, out) choose_method_rows ->
+    out <> CRet MBlockwise /\ exists m, out = CRet m.
+Proof. exact auto_arg_reduction_never_blockwise. Qed.
+
+(* all rules at once (blockwise-only aggregations: blockwise or a clean ValueError; otherwise the planner's
+   preference subject to the two rules above) *)
+Theorem C19_choose_method_rules : forall r, In r choose_method_rows -> row_ok r = true.
+Proof. exact choose_method_rules. Qed.
+
 Print Assumptions C19_checker_sound.
+Print Assumptions C19_choose_table_covers_domain.
+Print Assumptions C19_explicit_method_kept.
+Print Assumptions C19_auto_partial_axes_is_map_reduce.
+Print Assumptions C19_auto_arg_reduction_never_blockwise.
+Print Assumptions C19_choose_method_rules.
